@@ -121,8 +121,10 @@ Definition ex_alias : list (bytes * json) :=
   [ (b "QUERY", JStr (b "{a}")); (b "operationname", JNull);
     (b "Variables", JObj [(b "z", JNum 4607182418800017408%N); (b "a", JNull)]);
     (b "extensions", JObj []); (b "zzz", JArr [JBool true]) ].
-Example ex_alias_hyps : has_range (JObj ex_alias) = false /\ single_string_members ex_alias = true.
-Proof. split; reflexivity. Qed.
+Example ex_alias_hyps :
+  fold_members StdJson ex_alias = fold_members Jsoniter ex_alias /\
+  has_range (JObj ex_alias) = false /\ single_string_members (fold_members StdJson ex_alias) = true.
+Proof. split; [|split]; vm_compute; reflexivity. Qed.
 Example ex_alias_agree :
   option_map body_op (decode_struct StdJson true (JObj ex_alias)) =
   Some {| o_query := b "{a}"; o_vars := Some [(b "a", JNull); (b "z", JNum 4607182418800017408%N)]; o_opname := [] |}
